@@ -3,7 +3,7 @@
    [src_shape], the decision shapes tools/src2coq.py reads from rotatingfilesink.cpp / filesink.cpp /
    iodevicesink.cpp on every run.  [run src_shape c t0 ops] is the model the check executes against
    the real sink (coq/extract/Ex_rotate.v extracts these very definitions).
-   Quantification: every op list [ops] (Write of any payload / Advance of the wall clock, never
+   Quantification: every op list [ops] (Write of any payload and any message type / Advance of the wall clock, never
    backwards / Restart / PutForeign), every configuration [c] (any L, any N, all 8 option sets, three
    timestamp granularities, any base name and suffix, any time zone offset within +-24 h), any start time.  Hypothesis [clean c ops]:
    nobody else creates files that follow the sink's own rotated-name scheme (PutForeign names are
@@ -113,7 +113,7 @@ Print Assumptions C09_directory_names_distinct.
 (* non-vacuity: two records on 2023-11-14, a jump of two days, a restart on a pre-dated active file *)
 Example C09_nonvacuous :
   let c := {| cL := 0; cN := 0; startup := false; daily := true; compress := false; cgran := G1ms; cbase := [97%N]; csuffix := []; ctz := 0 |} in
-  let w := run src_shape c 1700000000000 [Write [120%N]; Write [121%N]; Advance 172800000; Write [122%N]; Advance 86400000; Restart; Write [119%N]] in
+  let w := run src_shape c 1700000000000 [Write TInfo [120%N]; Write TInfo [121%N]; Advance 172800000; Write TFatal [122%N]; Advance 86400000; Restart; Write TInfo [119%N]] in
   (map (fun f => (fymd f, fidx f, map rday (fcont f))) (rot w), map rday (act w))
   = ([((2023, 11, 14), 1, [19675; 19675]); ((2023, 11, 16), 1, [19677])], [19678]).
 Proof. vm_compute. reflexivity. Qed.
@@ -121,7 +121,7 @@ Proof. vm_compute. reflexivity. Qed.
 (* non-vacuity with a time zone: UTC+9; 14:50 and 15:10 UTC are the same UTC day but two LOCAL days *)
 Example C09_nonvacuous_zone :
   let c := {| cL := 0; cN := 0; startup := false; daily := true; compress := false; cgran := G1s; cbase := [97%N]; csuffix := []; ctz := 540 |} in
-  let w := run src_shape c (19675 * 86400000 + 53400000) [Write [120%N]; Advance 1200000; Write [121%N]] in
+  let w := run src_shape c (19675 * 86400000 + 53400000) [Write TInfo [120%N]; Advance 1200000; Write TInfo [121%N]] in
   (map (fun f => (fymd f, fidx f, map rday (fcont f))) (rot w), map rday (act w))
   = ([((2023, 11, 14), 1, [19675])], [19676]).
 Proof. vm_compute. reflexivity. Qed.
